@@ -338,12 +338,9 @@ impl<'a> Model<'a> {
                         height,
                     )?;
                 } else {
-                    self.update_cell_with_formula(
-                        sheet,
-                        row,
-                        column,
-                        format!("={formula_displaced}"),
-                    )?;
+                    // only the references change: the cell keeps its style as it is
+                    let style = self.get_cell_style_index(sheet, row, column)?;
+                    self.set_cell_with_formula(sheet, row, column, &formula_displaced, style)?;
                 }
             };
         }
